@@ -554,7 +554,22 @@ def _member_indices(ctx, R):
                         d = [a for a in body if isinstance(a, ast.Assign) and len(a.targets) == 1 and norm(a.targets[0]) == e.id]
                         txt = " ; ".join(norm(a.value) for a in d) or txt
                     n += 1
-                    if "lower_index" in txt:
+                    # `<list>.index(pin)` is the position in <list>: that list has to be the port's pin list itself, not a filtered copy
+                    # (`connected = [p for p in port.pins if p.wire is not None]`: positions among the connected pins only)
+                    filtered = None
+                    for a_ in (a for a in body if isinstance(a, ast.Assign) and len(a.targets) == 1 and isinstance(e, ast.Name) and norm(a.targets[0]) == e.id):
+                        v_ = a_.value
+                        if isinstance(v_, ast.Call) and isinstance(v_.func, ast.Attribute) and v_.func.attr == "index" and isinstance(v_.func.value, ast.Name):
+                            src_ = [b for b in body if isinstance(b, ast.Assign) and len(b.targets) == 1 and norm(b.targets[0]) == v_.func.value.id]
+                            if any(isinstance(b.value, (ast.ListComp, ast.GeneratorExp)) and b.value.generators[0].ifs for b in src_) or \
+                                    any(isinstance(b.value, ast.Call) and norm(b.value.func) in ("filter", "list") and b.value.args
+                                        and isinstance(b.value.args[0], (ast.GeneratorExp, ast.ListComp)) and b.value.args[0].generators[0].ifs for b in src_):
+                                filtered = v_
+                    if filtered is not None:
+                        R.bad("B4", "%s|member index in a filtered list" % f.key, f.loc(c),
+                              "%s writes `%s` as a (member …) index, a position in a filtered copy of the pin list: with an unconnected bit below it the pin is "
+                              "written under the number of another bit" % (f.qualname, short(filtered, 50)))
+                    elif "lower_index" in txt:
                         R.bad("B4", "%s|member index offset" % f.key, f.loc(c),
                               "%s writes `%s` as a (member …) index: the reader uses that number as a position in the port's pin list, so for a port whose "
                               "lower_index is not 0 every pin reference lands on another bit (or outside the port)" % (f.qualname, txt[:80]))
